@@ -12,7 +12,10 @@ RULE = ("Hypothesis programs: a prelude of numeric .define / .set / labels, then
         "defined() ! == < > <= >= && || ( ) numbers defines symbols. An independent evaluator (C semantics, && over "
         "||, ! tightest, one comparison per operand pair) selects branches; expected image = markers of taken "
         "branches in order, expected symbols = labels of taken branches; names defined only in untaken branches must "
-        "stay undefined for later tests. Malformed/unterminated conditionals must be rejected. non-trivial = nesting "
+        "stay undefined for later tests. Malformed/unterminated conditionals must be rejected: a fixed list of "
+        "condition-level malformations plus ONE generated structural corruption of a generated tree at a generated "
+        "conditional (missing .endif, second .else directly after the first or before the .endif, missing .if line, "
+        "extra .endif, stray .else/.endif at top level), at any depth and in taken and untaken branches. non-trivial = nesting "
         "depth>=2 with an untaken branch that itself contains a conditional; distinct key = (tree shape, operator set)")
 ASSUMPTIONS = ["'!' is never applied twice in a row (whether !!x normalises to 0/1 is not documented)",
                "conditions never reference a label defined later in the source (precondition in the statement)",
@@ -356,6 +359,95 @@ MALFORMED = [
 ]
 
 
+CORRUPT_KINDS = ["drop_endif", "double_else", "double_else_end", "drop_if", "extra_endif", "stray_else_top",
+                 "stray_endif_top", "else_before_if_end"]
+
+
+def count_conds(prog):
+    n = 0
+    for it in prog:
+        if it[0] == "cond":
+            n += 1 + count_conds(it[3]) + (count_conds(it[4]) if it[4] is not None else 0)
+    return n
+
+
+def render_corrupt(prog, target, kind, state=None, ind=0):
+    """render() with ONE structural corruption applied to the target-th conditional (preorder):
+       drop_endif       its .endif is missing (unterminated)
+       double_else      a second .else directly after its .else (one is added first if it has none)
+       double_else_end  a second .else just before its .endif
+       drop_if          its .if line is missing (its .else/.endif become stray or steal the enclosing conditional)
+       extra_endif      a second .endif after its .endif
+    returns (lines, depth of the corrupted conditional, True if the corruption was applied)"""
+    state = state if state is not None else dict(n=0, depth=None)
+    out = []
+    pad = "  " * ind
+    for it in prog:
+        if it[0] != "cond":
+            out.extend(render([it], ind))
+            continue
+        _, knd, cnd, then, els, pre = it
+        me = state["n"]
+        state["n"] += 1
+        hit = me == target
+        if hit:
+            state["depth"] = ind
+        if not (hit and kind == "drop_if"):
+            out.append(pad + "%s%s %s" % (pre, knd, rc(cnd) if knd == "if" else cnd))
+        out.extend(render_corrupt(then, target, kind, state, ind + 1)[0])
+        if els is not None or (hit and kind in ("double_else", "double_else_end")):
+            out.append(pad + pre + "else")
+            if hit and kind == "double_else":
+                out.append(pad + pre + "else")
+            if els is not None:
+                out.extend(render_corrupt(els, target, kind, state, ind + 1)[0])
+            if hit and kind == "double_else_end":
+                out.append(pad + "  .db 250, 5")
+                out.append(pad + pre + "else")
+        if not (hit and kind == "drop_endif"):
+            out.append(pad + pre + "endif")
+        if hit and kind == "extra_endif":
+            out.append(pad + pre + "endif")
+    return out, state["depth"], state["depth"] is not None
+
+
+def corrupt_source(prog, target, kind):
+    """(source, tag) of a structurally malformed variant of prog; None if not applicable"""
+    n = count_conds(prog)
+    if kind in ("stray_else_top", "stray_endif_top") or n == 0:
+        lines = render(prog)
+        # top-level positions: lines that are not indented and not inside a conditional
+        depth = 0
+        tops = [0]
+        inmac = False
+        for i, l in enumerate(lines):
+            t = l.strip().lstrip(".#")
+            if t.startswith(("if ", "ifdef ", "ifndef ")):
+                depth += 1
+            elif t == "endif":
+                depth -= 1
+            elif t.startswith("macro "):
+                inmac = True                   # a macro body is only text until it is invoked (never, here)
+            elif t == "endm":
+                inmac = False
+            if depth == 0 and not inmac:
+                tops.append(i + 1)
+        pos = tops[target % len(tops)]
+        word = ".else" if kind in ("stray_else_top", "double_else", "double_else_end") else ".endif"
+        lines = lines[:pos] + [word] + lines[pos:]
+        tag = "gen:stray_" + word[1:] + "_top"
+        dep = 0
+    else:
+        lines, dep, ok = render_corrupt(prog, target % n, kind)
+        if not ok:
+            return None
+        tag = "gen:" + kind
+    tail = [".org 0x1234"]
+    for nme, v in TRAILER:
+        tail += ["%s:" % nme, "  .db 0xee"]
+    return ".msp430\n" + "\n".join(lines) + "\n" + "\n".join(tail) + "\n", tag, dep
+
+
 def full_source(prog):
     tail = [".org 0x1234"]
     for n, v in TRAILER:
@@ -488,6 +580,21 @@ def run(tier, seed, shard, nshards):
             s.violations.append(v.payload)
         n = 700 if tier == "quick" else 15000
         hyp_run(test, program(), n, shard_seed(seed, shard, "c10"), s)
+
+        def test_corrupt(case):
+            prog, target, kind = case
+            c = corrupt_source(prog, target, kind)
+            if c is None:
+                return
+            src, tag, dep = c
+            s.evaluations += 1
+            s.count("malformed." + tag)
+            s.count("malformed.gen.depth=%d" % min(dep, 3))
+            s.nt(("malformed", tag, min(dep, 3), shape(prog)))
+            ck.check_malformed(tag, src, cli=False)
+
+        hyp_run(test_corrupt, st.tuples(program(), st.integers(0, 40), st.sampled_from(CORRUPT_KINDS[:7])),
+                300 if tier == "quick" else 6000, shard_seed(seed, shard, "c10m"), s)
     finally:
         w.close()
     return s
